@@ -98,8 +98,8 @@ Definition dheapify (s : store) (i : nat) : R store :=
   if decide (ssize s <= 1) then Ok s
   else trickle (on_min_level i) (S (ssize s)) s i.
 
-(** bubble_up_min / bubble_up_max (mod.rs:946, :964): the grandparent chain *)
-Fixpoint bubble_chain (mn : bool) (fuel : nat) (s : store) (pos : nat) (p : P)
+(** bubble_up_min / bubble_up_max: the grandparent chain (hole guard as in PQ.v) *)
+Fixpoint bubble_chain (mn : bool) (fuel : nat) (s : store) (pos idx : nat) (p : P)
   : R (nat * store) :=
   match fuel with
   | O => Fault OutOfFuel
@@ -114,18 +114,20 @@ Fixpoint bubble_chain (mn : bool) (fuel : nat) (s : store) (pos : nat) (p : P)
               gp ← parent par;
               gpp ← prio_at s gp;
               (* min chain: grandparent > priority; max chain: grandparent < priority *)
-              '(b, s1) ← cmp_dir mn s p gpp;
+              '(b, s1) ← (match cmp_dir mn s p gpp with
+                          | Unwound u => Unwound (fill_hole u pos idx)
+                          | r => r end);
               if b : bool then
                 gidx ← getu (heap s1) gp;
                 h ← setu (heap s1) pos gidx;
                 q ← setu (qp s1) gidx pos;
-                bubble_chain mn fuel' (set_qp (set_heap s1 h) q) gp p
+                bubble_chain mn fuel' (set_qp (set_heap s1 h) q) gp idx p
               else Ok (pos, s1)
           end
       end
   end.
 
-(** bubble_up (mod.rs:906) *)
+(** bubble_up (mod.rs) *)
 Definition dbubble_up (s : store) (pos idx : nat) : R (nat * store) :=
   e ← unwrap (smap s !! idx);
   let p := e.2 in
@@ -136,20 +138,20 @@ Definition dbubble_up (s : store) (pos idx : nat) : R (nat * store) :=
          par ← parent pos;
          pp ← prio_at s par;
          pidx ← getu (heap s) par;
-         '(b, s1) ← cmp_lt s pp p;
+         '(b, s1) ← cmp_lt_hole ple s pos idx pp p;
          match on_min_level pos, b with
          | true, true =>
              h ← setu (heap s1) pos pidx;
              q ← setu (qp s1) pidx pos;
-             bubble_chain false (S pos) (set_qp (set_heap s1 h) q) par p
+             bubble_chain false (S pos) (set_qp (set_heap s1 h) q) par idx p
          | true, false =>
-             bubble_chain true (S pos) s1 pos p
+             bubble_chain true (S pos) s1 pos idx p
          | false, true =>
-             bubble_chain false (S pos) s1 pos p
+             bubble_chain false (S pos) s1 pos idx p
          | false, false =>
              h ← setu (heap s1) pos pidx;
              q ← setu (qp s1) pidx pos;
-             bubble_chain true (S pos) (set_qp (set_heap s1 h) q) par p
+             bubble_chain true (S pos) (set_qp (set_heap s1 h) q) par idx p
          end
      end);
   h ← setu (heap s') pos' idx;
@@ -252,9 +254,9 @@ Definition dpush (s : store) (k : I) (p : P) : R (option P * store) :=
   | None =>
       let s1 := set_map s (smap s ++ [(k, p)]) in
       let i := ssize s1 in
-      let s2 := set_heap (set_qp s1 (qp s1 ++ [i])) (heap s1 ++ [i]) in
+      let s2 := set_size (set_heap (set_qp s1 (qp s1 ++ [i])) (heap s1 ++ [i])) (S i) in
       '(_, s3) ← dbubble_up s2 i i;
-      Ok (None, set_size s3 (S (ssize s3)))
+      Ok (None, s3)
   end.
 
 Definition dpush_increase (s : store) (k : I) (p : P) : R (option P * store) :=
